@@ -121,7 +121,7 @@ Proof.
   split.
   { unfold Up; cbn. destruct G1 as (_ & G2 & _), R1 as (_ & R3 & _). rewrite R3, G2; auto. }
   assert (I2 : iso_default d2).
-  { apply R7. destruct HC as [Hd|Hi]; [right|left; apply in_rev in Hi; rewrite rev_involutive in Hi; apply in_rev; rewrite rev_involutive; exact Hi].
+  { apply R7. destruct HC as [Hd|Hi]; [right|left; apply in_rev in Hi; exact Hi].
     destruct (G5 eq_refl) as [[-> _]|[-> _]]; auto. }
   assert (D1 : DBI d1) by (destruct (G5 eq_refl) as [[-> _]|[-> _]]; [apply clean_DBI|exact HD]).
   pose proof (SameTx_DBI _ _ R2 D1) as D2.
@@ -187,9 +187,9 @@ Proof.
     destruct (nth_error (sp d) k) as [[dr fk]|] eqn:En; cbn; auto.
     split; auto. split; auto. intros [H1 H2]. split.
     + intros Hd. cbn in Hd. subst dr. apply (H2 (true, fk)); auto. eapply nth_error_In; eauto.
-    + intros e He Hf. cbn in He. apply In_firstn in He. eapply H2; eauto.
+    + intros e He Hf. change (In e (firstn (S k) (sp d))) in He. apply In_firstn in He. eapply H2; eauto.
   - unfold db_release; intros k d s d' s' H. inversion H; subst; clear H. cbn. split; [apply Fr_log|]. split; auto. split; auto.
-    intros [H1 H2]. split; [exact H1|]. intros e He Hf. cbn in He. apply In_firstn in He. eapply H2; eauto.
+    intros [H1 H2]. split; [exact H1|]. intros e He Hf. cbn [sp] in He. apply In_firstn in He. eapply H2; eauto.
 Qed.
 
 Definition CInv (c : cst) : Prop := CI c /\ DBI (cdb c).
@@ -222,15 +222,20 @@ Proof.
     destruct (txn c) as [[|]|]; try (inversion H; subst; auto; fail).
     destruct (db_commit (cdb c) s) as [[ok d1] s1] eqn:E. apply db_commit_spec in E. destruct E as [E1 E2].
     destruct (cancel_nested_frame (set_cdb c d1)) as (A & B & C & D).
-    left. destruct ok; subst d1; inversion H; subst; clear H; (split; [split|split; [auto|cbn; congruence]]);
-      unfold CI; cbn; rewrite ?A, ?B; cbn; auto; try apply clean_DBI.
-    eapply CIf_same; [| |exact HC]; reflexivity.
+    assert (Dn : forall t, done (set_txn (cancel_nested (set_cdb c d1)) t) = false)
+      by (intros t; unfold set_txn; cbn [done]; rewrite C; exact Hdn).
+    assert (Cd : forall t, cdb (set_txn (cancel_nested (set_cdb c d1)) t) = d1)
+      by (intros t; unfold set_txn; cbn [cdb]; rewrite A; reflexivity).
+    assert (Fn : forall t, fins (set_txn (cancel_nested (set_cdb c d1)) t) = fins c)
+      by (intros t; unfold set_txn; cbn [fins]; rewrite B; reflexivity).
+    left. destruct ok; subst d1; inversion H; subst; clear H; (split; [split|split; [exact E1|apply Dn]]);
+      unfold CI; rewrite ?Cd, ?Fn; auto; try apply clean_DBI; try (eapply CIf_same; [| |exact HC]; reflexivity).
   - (* rollback *)
     destruct (root_close c s) as [[ok c1] s1] eqn:E. apply root_close_spec in E.
     destruct E as (R1 & R2 & R3 & R4 & R5 & R6). inversion H; subst; clear H.
     left. split; [split|split; [auto|congruence]].
-    + unfold CI. rewrite R2. destruct R4 as [->|->]; auto. eapply CIf_same; [| |exact HC]; reflexivity.
-    + destruct R4 as [->|->]; auto. apply clean_DBI.
+    + unfold CI. rewrite R2. destruct R4 as [Hr|Hr]; rewrite Hr; exact HC.
+    + destruct R4 as [Hr|Hr]; rewrite Hr; auto. apply clean_DBI.
   - (* failing statement *)
     destruct (invalid_state c); [inversion H; subst; auto|].
     destruct (autobegin begin_emits c s) as [c1 s1] eqn:Ea. apply autobegin_spec in Ea.
@@ -244,20 +249,20 @@ Proof.
   - (* write violating a deferred constraint *)
     destruct (invalid_state c); [inversion H; subst; auto|]. left. eapply WR; eauto.
   - (* close *)
-    right. destruct (txn c) as [active|] eqn:Et.
+    destruct (txn c) as [active|] eqn:Et.
     + destruct (root_close c s) as [[ok c1] s1] eqn:E. apply root_close_spec in E.
       destruct E as (R1 & R2 & R3 & R4 & R5 & R6).
+      assert (HC1 : CIf (cdb c1) (fins c1)).
+      { rewrite R2. destruct R4 as [Hr|Hr]; rewrite Hr; exact HC. }
+      assert (HD1 : DBI (cdb c1)) by (destruct R4 as [Hr|Hr]; rewrite Hr; auto; apply clean_DBI).
       destruct ok; inversion H; subst; clear H.
-      * cbn [done]. split; [reflexivity|].
-        assert (HC1 : CIf (cdb c1) (fins c1)).
-        { rewrite R2. destruct R4 as [->|->]; auto. eapply CIf_same; [| |exact HC]; reflexivity. }
-        assert (HD1 : DBI (cdb c1)) by (destruct R4 as [->|->]; auto; apply clean_DBI).
+      * right. cbn [done]. split; [reflexivity|].
         destruct (finalize_end (cdb c1) (fins c1) active s1 HC1 HD1) as [G1 G2].
         { intros ->. rewrite (R5 Et eq_refl). reflexivity. }
         split; [|exact G2]. eapply Up_trans; [apply Fr_Up; exact R1|exact G1].
-      * exfalso. (* the error escapes close(): not an end *)
-        cbn in *. congruence.
-    + inversion H; subst; clear H. cbn [done]. split; [reflexivity|].
+      * (* the error escapes close(): the connection stays checked out *)
+        left. split; [split; auto|split; [exact R1|congruence]].
+    + right. inversion H; subst; clear H. cbn [done]. split; [reflexivity|].
       destruct (finalize_end (cdb c) (fins c) false s HC HD) as [G1 G2]; [dd|auto].
   - (* drop *)
     right. inversion H; subst; clear H. cbn [done]. split; [reflexivity|].
@@ -315,4 +320,110 @@ Proof.
         unfold CI; cbn. eapply CIf_same; [| |exact HC]; congruence.
     + inversion H; subst; clear H. left. split; [split; auto|split; [apply Fr_refl|reflexivity]].
 Qed.
+
+Lemma do_ops_spec : forall ops c s codes codes' c' s', do_ops reset kind begin_emits ops c s codes = (codes', c', s') ->
+  CInv c -> done c = false ->
+  (Cont c s c' s') \/ (done c' = true /\ Up s s' /\ PoolAll reset s').
+Proof.
+  induction ops as [|o r IH]; intros c s codes codes' c' s' H HI Hd; cbn [do_ops] in H.
+  - inversion H; subst. left. split; [auto|split; [apply Fr_refl|auto]].
+  - destruct (do_op reset kind begin_emits o c s) as [[code c1] s1] eqn:E.
+    destruct (do_op_spec _ _ _ _ _ _ E HI Hd) as [(A1 & A2 & A3)|(A1 & A2 & A3)].
+    + rewrite A3 in H. destruct (IH _ _ _ _ _ _ H A1 A3) as [(B1 & B2 & B3)|(B1 & B2 & B3)].
+      * left. split; [auto|split; [eapply Fr_trans; eauto|auto]].
+      * right. split; [auto|split; [eapply Up_trans; [apply Fr_Up; eauto|auto]|auto]].
+    + rewrite A1 in H. inversion H; subst. right. auto.
+Qed.
+
+Lemma checkout_spec : forall s, PoolAll reset s ->
+  let d := fst (checkout s) in let s0 := snd (checkout s) in
+  iso_default d /\ DBI d /\ (reset <> RNone -> pristine d = true) /\
+  idle s0 = None /\ twr_unsound s0 = twr_unsound s.
+Proof.
+  intros s HP. unfold checkout, PoolAll in *. destruct (idle s) as [d|]; cbn.
+  - destruct HP as (P1 & P2 & P3). auto.
+  - split; [split; reflexivity|]. split; [split; [dd|intros e []]|]. auto.
+Qed.
+
+Lemma connect_spec : forall d s c0 s0, connect engine_iso d s = (c0, s0) -> iso_default d -> DBI d ->
+  CInv c0 /\ Fr s s0 /\ done c0 = false.
+Proof.
+  unfold connect; intros d s c0 s0 H Hi Hd. destruct (engine_iso =? 0).
+  - inversion H; subst. split; [split; [left; exact Hi|exact Hd]|split; [apply Fr_refl|reflexivity]].
+  - destruct (db_set_iso engine_iso d s) as [d1 s1] eqn:E. apply db_set_iso_spec in E. destruct E as (E1 & E2 & E3).
+    inversion H; subst. split; [split; [right; left; reflexivity|eapply SameTx_DBI; eauto]|split; [auto|reflexivity]].
+Qed.
+
+Lemma user_spec : forall ops s, PoolAll reset s ->
+  let s' := snd (user reset kind begin_emits engine_iso ops s) in
+  PoolAll reset s' /\ Up s s'.
+Proof.
+  intros ops s HP. unfold user.
+  destruct (checkout_spec s HP) as (C1 & C2 & C3 & C4 & C6).
+  destruct (checkout s) as [d s0] eqn:Ec. cbn [fst snd] in *.
+  set (s1 := mkst (idle s0) (nconn s0) (faults s0) [] (twr_unsound s0)).
+  assert (U01 : Up s s1) by (unfold Up; subst s1; cbn; rewrite C6; auto).
+  destruct (connect engine_iso d s1) as [c0 s2] eqn:Eo.
+  destruct (connect_spec _ _ _ _ Eo C1 C2) as (K1 & K2 & K3).
+  destruct (do_ops reset kind begin_emits ops c0 s2 []) as [[codes c] s3] eqn:E.
+  cbn [snd].
+  destruct (do_ops_spec _ _ _ _ _ _ _ E K1 K3) as [((A1 & A1') & A2 & A3)|(A1 & A2 & A3)].
+  - (* never returned: the garbage collector finalises the fairy *)
+    rewrite A3. destruct (finalize_end (cdb c) (fins c) false s3 A1 A1') as (G1 & G2); [dd|].
+    split; [exact G2|]. eapply Up_trans; [exact U01|]. eapply Up_trans; [apply Fr_Up; exact K2|].
+    eapply Up_trans; [apply Fr_Up; exact A2|exact G1].
+  - rewrite A1. split; [exact A3|]. eapply Up_trans; [exact U01|]. eapply Up_trans; [apply Fr_Up; exact K2|exact A2].
+Qed.
+
+Lemma run_spec : forall us s, PoolAll reset s ->
+  PoolAll reset (run reset kind begin_emits engine_iso us s) /\ Up s (run reset kind begin_emits engine_iso us s).
+Proof.
+  induction us as [|u r IH]; intros s HP; cbn [run].
+  - split; auto. apply Fr_Up, Fr_refl.
+  - destruct (user_spec u s HP) as [A1 A2]. destruct (IH _ A1) as [B1 B2]. split; auto. eapply Up_trans; eauto.
+Qed.
+
+Lemma init_PoolAll : forall fl, PoolAll reset (init fl).
+Proof. intros; unfold PoolAll; cbn; auto. Qed.
+
+(* ---------------------------------------------------------------- the theorems *)
+(* clean_on_checkout: with reset_on_return enabled, for every history of users (incl. savepoints and
+   any sequence of option calls, with or without an option engine) and every fault script, the
+   connection handed to the next checkout is pristine *)
+Theorem clean_on_checkout : reset <> RNone -> forall us fl,
+  pristine (next_checkout (run reset kind begin_emits engine_iso us (init fl))) = true.
+Proof.
+  intros Hr us fl. destruct (run_spec us _ (init_PoolAll fl)) as [HP _].
+  destruct (checkout_spec _ HP) as (_ & _ & C3 & _). exact (C3 Hr).
+Qed.
+
+(* characteristics_restored: whatever the reset style and whatever list of execution_options calls the
+   users made: the next checkout sees the default isolation level / autocommit setting *)
+Theorem characteristics_restored : forall us fl,
+  iso_default (next_checkout (run reset kind begin_emits engine_iso us (init fl))).
+Proof.
+  intros us fl. destruct (run_spec us _ (init_PoolAll fl)) as [HP _].
+  destruct (checkout_spec _ HP) as (C1 & _). exact C1.
+Qed.
+
+(* ... because during a checkout every characteristic that was set has a pending finaliser that names it *)
+Theorem finaliser_pending : forall ops d s c0 s0 codes c s',
+  iso_default d -> DBI d -> connect engine_iso d s = (c0, s0) ->
+  do_ops reset kind begin_emits ops c0 s0 [] = (codes, c, s') -> done c = false ->
+  iso_default (cdb c) \/ In true (fins c).
+Proof.
+  intros ops d s c0 s0 codes c s' Hd HD Ho H Hdn.
+  destruct (connect_spec _ _ _ _ Ho Hd HD) as (K1 & K2 & K3).
+  destruct (do_ops_spec _ _ _ _ _ _ _ H K1 K3) as [((A1 & _) & _)|(A1 & _)]; [exact A1|congruence].
+Qed.
+
+(* reset_exactly_once_or_skipped_soundly: transaction_was_reset=True never reaches _reset over an open
+   DBAPI transaction *)
+Theorem reset_skipped_soundly : forall us fl,
+  twr_unsound (run reset kind begin_emits engine_iso us (init fl)) = false.
+Proof.
+  intros us fl. destruct (run_spec us _ (init_PoolAll fl)) as [_ U].
+  destruct (twr_unsound (run reset kind begin_emits engine_iso us (init fl))) eqn:E; auto. apply U in E. cbn in E. discriminate.
+Qed.
+
 End P.
